@@ -175,6 +175,10 @@ DefGenOut gen_deflate_stream(const Json &spec)
         uint64_t target = (uint64_t) spec.geti("n") % 200000;
         int fault = (int) ((uint64_t) spec.geti("fault") % GF_NKINDS);
         uint64_t dict = (uint64_t) spec.geti("dict") % 32769;
+        // "ld": valid streams with long code words - unused distance / length symbols get codes too and lengths follow a chain
+        // 1,2,3,...,15,15, so that the decoder's second-level tables for codes longer than its first-level index are built and walked
+        int ld = (int) (spec.geti("ld") & 3);
+        Rng rld((uint64_t) spec.geti("s") ^ 0x6c64ull, "defgen.ld");
         o.fault = fault;
         BitW w;
         // ---- tokens
@@ -326,6 +330,18 @@ DefGenOut gen_deflate_stream(const Json &spec)
                                 df[r.below(30)] += 1;
                         bool incomplete = r.chance(1, 4) || (inject && fault == GF_UNASSIGNED);
                         int lmode = (int) r.below(4), dmode = (int) r.below(4);
+                        if (ld & 1) {
+                                for (int q = (int) (12 + rld.below(19)); q > 0; q--)
+                                        df[rld.below(30)] += 1;
+                                if (rld.chance(3, 4))
+                                        dmode = 3;
+                        }
+                        if (ld & 2) {
+                                for (int q = (int) (20 + rld.below(200)); q > 0; q--)
+                                        lf[rld.below(286)] += 1;
+                                if (rld.chance(3, 4))
+                                        lmode = 3;
+                        }
                         std::vector<uint8_t> l2, d2;
                         choose_lengths(r, lf, l2, 15, lmode, !incomplete);
                         if (inject && fault == GF_UNASSIGNED && kraft(l2, 15) >= (1u << 15)) {
